@@ -399,9 +399,14 @@ func runPhase(folder string, ph *Phase, canon []string, clockMin int, partial st
 				_, err = b.Remove(ctx, op.Key)
 			}
 			if err != nil {
-				out.Fatal = fmt.Sprintf("%s op %v: %v", w.Label, op, err)
-				return out
+				// an operation that cannot read its nodes is an observation, not a harness failure
+				out.Results[w.Label] = fmt.Sprintf("op-error: %v %v", op, err)
+				break
 			}
+		}
+		if _, bad := out.Results[w.Label]; bad {
+			close(ws.done)
+			continue
 		}
 		wg.Add(1)
 		go func() {
